@@ -14,7 +14,7 @@
    Every theorem below quantifies over ALL well-formed types (induction over the type syntax where
    the trait recurses through arrays / cv), not over the finite zoo the compile-time tie samples. *)
 From Coq Require Import NArith.
-From Tetl Require Import Lib.Base C15.Types C15.Model C15.ModelNum C15.ModelComp C15.Spec C15.SpecNum C15.ProofsTypes
+From Tetl Require Import Lib.Base C15.Types C15.Model C15.ModelNum C15.ModelComp C15.ModelMeta C15.Spec C15.SpecNum C15.ProofsTypes
   C15.ProofsCv C15.ProofsCat C15.ProofsTrans C15.ProofsSummary C15.ProofsLimits C15.ProofsWf C15.ProofsLaws C15.ProofsComp.
 Local Open Scope Z_scope.
 
@@ -135,6 +135,30 @@ Proof.
 Qed.
 Print Assumptions C15_destructible.
 
+(* etl::meta (compile-time type lists): at / head / count / index_of / push_back / push_front / tail
+   as the partial specialisations compute them are nth_error / hd_error / number of occurrences /
+   FIRST position (no value iff the type does not occur) / append / cons, for all lists and indices *)
+Theorem C15_meta_lists : forall t l,
+  (forall i, at_m i l = nth_error l i) /\ head_m l = hd_error l
+  /\ count_m t l = length (filter (fun x => cty_eqb t x) l) /\ (0 < count_m t l <-> In t l)%nat
+  /\ match index_of_m t l with
+     | Some i => nth_error l i = Some t /\ forall j, (j < i)%nat -> nth_error l j <> Some t
+     | None => ~ In t l
+     end
+  /\ (at_m (length l) (push_back_m t l) = Some t
+      /\ (forall i, (i < length l)%nat -> at_m i (push_back_m t l) = at_m i l)
+      /\ head_m (push_front_m t l) = Some t /\ tail_m (push_front_m t l) = Some l
+      /\ count_m t (push_front_m t l) = (count_m t l + 1)%nat
+      /\ count_m t (push_back_m t l) = (count_m t l + 1)%nat
+      /\ index_of_m t (push_front_m t l) = Some 0%nat
+      /\ (contains_m t l = true <-> index_of_m t l <> None)).
+Proof.
+  intros t l.
+  exact (conj (at_m_spec l) (conj (head_m_spec l) (conj (count_m_spec t l) (conj (count_m_pos t l)
+        (conj (index_of_m_spec t l) (meta_laws t l)))))).
+Qed.
+Print Assumptions C15_meta_lists.
+
 (* smallest_size_t<N> (etl extension) for every 64-bit N: the chosen type holds N, and the next
    smaller unsigned type could not hold N + 1 *)
 Theorem C15_smallest_size_t : forall n, 0 <= n < 2 ^ 64 ->
@@ -156,6 +180,18 @@ Theorem C15_numeric_limits :
   /\ (forall x, 1 <= x < 10 ^ 6000 -> is_flog10 x (flog10 x)).
 Proof. exact (conj limits_m_spec (conj limits_spec_defined flog10_spec)). Qed.
 Print Assumptions C15_numeric_limits.
+
+(* how far the header's decimal-digit formulas reach beyond this platform's types:
+   digits * 3 / 10 = floor(digits * log10 2) for every width 1..102 (first failure: 103), and
+   2 + MANT_DIG * 301 / 1000 = ceil(1 + p * log10 2) for every precision 1..195 (first failure: 196);
+   finite ranges, kernel-evaluated *)
+Theorem C15_decimal_digit_formulas :
+  (forall d, 1 <= d <= 102 -> Z.quot (d * 3) 10 = flog10 (2 ^ d))
+  /\ Z.quot (103 * 3) 10 <> flog10 (2 ^ 103)
+  /\ (forall p, 1 <= p <= 195 -> 2 + Z.quot (p * 301) 1000 = flog10 (2 ^ p) + 2)
+  /\ 2 + Z.quot (196 * 301) 1000 <> flog10 (2 ^ 196) + 2.
+Proof. exact decimal_formulas. Qed.
+Print Assumptions C15_decimal_digit_formulas.
 
 (* the hypotheses are satisfiable by deeply nested types and the traits are non-trivial on them *)
 Example C15_nonvacuous :
